@@ -256,7 +256,7 @@ theorem C02_http_unary_error_outcome (ops : List HOp) (e : HErr) (ctxDone : Bool
     (client (serve ops (.err e) ctxDone).1).result = .status (unaryCode e) ∧ unaryCode e ≠ 0 ∧
     unaryCode e = HttpServerStream.trailerCode (some e) := by
   have hne := unaryCode_ne_zero e
-  exact ⟨by simp [serve, client, hne], hne, unaryCode_eq_trailerCode e⟩
+  exact ⟨by simp [serve, client, replyCode, hne], hne, unaryCode_eq_trailerCode e⟩
 
 /-- a response reaches the caller as that response — **partial**: proved for handlers that set no header
     metadata under the protocol's own status header name. The full statement is false of the code
@@ -266,7 +266,7 @@ theorem C02_http_unary_success_outcome_partial (ops : List HOp) (m : Nat) (ctxDo
   have h200 : Codes.codeFromHttpStatus 200 = 0 := by decide
   have hs := runOps_noSpoof ops {} hn
   simp only at hs
-  simp [serve, client, h200, hs]
+  simp [serve, client, replyCode, h200, hs]
 
 /-- **the excluded point, as a witness**: a handler that returns a response but has put `x-grpc-status: 5:…`
     into its header metadata makes the caller report code 5 — replayed on the implementation by the HU
@@ -280,7 +280,7 @@ theorem C02_http_unary_unencodable_is_error (ops : List HOp) (m : Nat) (ctxDone 
   have h500 : Codes.codeFromHttpStatus 500 ≠ 0 := by decide
   have hs := runOps_noSpoof ops {} hn
   simp only at hs
-  exact ⟨Codes.codeFromHttpStatus 500, h500, by simp [serve, client, h500, hs]⟩
+  exact ⟨Codes.codeFromHttpStatus 500, h500, by simp [serve, client, replyCode, h500, hs]⟩
 
 end HttpUnary
 
